@@ -33,6 +33,18 @@ def run(tier):
             seqs.append(o)
             f.write(json.dumps(o, separators=(',', ':')) + '\n')
         r = core.tlc(w, 'KvMC', 'kgen.cfg', workers=1, timeout=3000, mbt_sink=sink)
+    # fixed sequences for combinations the bounded model does not reach (listing of non-session types with a session selected, ...)
+    def O(op, t=0, s='', k='', v='', b=False):
+        return dict(op=op, t=t, s=s, k=k, v=v, b=b)
+    extra = []
+    for t in (1, 2, 4, 8, 16, 32):
+        for sid in ('', 'bob'):
+            extra.append([O('setlock', t=t, b=False), O('setsession', s=sid), O('setprefix', t=t), O('put', k='a0', v='x%d%s' % (t, sid)), O('put', k='b1', v='y%d%s' % (t, sid)),
+                          O('dump'), O('dump', k='a'), O('setsession', s='alice'), O('dump'), O('get', k='a0')])
+    with open(sp, 'a') as f:
+        for e in extra:
+            seqs.append(e)
+            f.write(json.dumps(e) + '\n')
     core.require_tlc_ok(r, 'KvMC generation')
     out.add_tlc('KvMC behaviour generation', r)
     out.sample(dict(kind='TLC behaviour replayed on mem / fs / fsbin / pg', sequence=seqs[len(seqs) // 2]))
